@@ -110,6 +110,17 @@ func init() {
 			"refusal of irregular spacing / letter case follows from 'a token that is not a list word is refused' together with the assumed Split semantics (an empty or upper-case token is not a list word); it is not proved at the byte level",
 		},
 	}
+	propConfigs["C09"] = &propConfig{
+		level: "proof",
+		extras: func(e *Engine, tier string, seed int) []ExtraResult {
+			// the mnemonic legs rest on the word list being duplicate-free: decided exhaustively on the real table
+			return e.tableRun("misc", "misc/table_test.go.txt", 2)
+		},
+		trusted: []string{
+			"assumed: encoding/hex contracts (T5), crypto/rand.Read fills its buffer with arbitrary bytes, hashes deterministic (T4)",
+			"mnemonic legs: dec(enc(b)) = b for 48/51-byte strings is proved in C10 (lemma functions, tagged C09 as well) and the word list is checked here; the composition 'NewXMSSFromExtendedSeed(MnemonicToExtendedSeedBin(k.GetMnemonic())) == k' is the ext-seed lemma applied to equal bytes and is not a separate obligation",
+		},
+	}
 	propConfigs["C08"] = &propConfig{
 		level:   "other",
 		explain: "Deductive part: (i) bdsRound, bdsTreeHashUpdate, treeHashSetup and initializeTree carry `pure` contracts (result and final state are a function of the arguments; bdsRound/bdsTreeHashUpdate depend on the address argument only through addr[0:3]) discharged by the effects back end on go/ssa, with assigns clauses confining their writes to the traversal state; (ii) lemma function verifLemmaUpdateToCurrentIsIdentity: a jump to the current index changes neither sk nor any traversal buffer; (iii) the index/seed part of the state (sk) evolves identically on the signing and the fast-forward path (C02 contracts). The product-program lemma 'one Sign step == one fast-forward step on the whole traversal state' (verifLemmaSignStepEqualsUpdateStep) is written and well-formed but the solvers do not decide it within the limits; it is NOT claimed. Bounded stand-in for it (labelled bounded): with the real hash functions, for every index of the listed small heights and all three hash functions, the complete state (sk, stack, levels, auth, keep, retain, every treehash instance) reached by signing equals the state reached by one jump and by two jumps on a fresh key, and the next signatures are byte-identical.",
